@@ -1,7 +1,7 @@
 (* C05 — decoder totality on arbitrary bytes. Statements only. *)
 From Coq Require Import List NArith ZArith.
 From TarsV Require Import Base.Hex Codec.Wire Codec.Skip Codec.Prim Codec.GenCodec Codec.Corr Codec.GenProofs
-  Codec.RoundTrip Codec.RoundTripProofs Codec.TotalProofs Codec.RoundTripExamples Codec.CorrT Gen.Schemas.
+  Codec.RoundTrip Codec.RoundTripProofs Codec.TotalProofs Codec.RoundTripExamples Codec.CorrT Codec.Alloc Codec.AllocProofs Gen.Schemas.
 Import ListNotations.
 Open Scope N_scope.
 
@@ -35,6 +35,27 @@ Theorem C05_total_any_type_partial : forall e sid prior bs,
   match decode_into e sid prior bs with DOk _ _ | DErr | DFuel => True | _ => False end.
 Proof. exact TotalProofs.decode_no_panic_cases. Qed.
 
+(* ALLOCATION LINEAR IN THE INPUT. [alloc_of e sid prior bs] (Codec/Alloc.v) adds up, over one ReadFrom of bs, every
+   count that passes the check in front of make([]T, count) plus every map entry inserted - on successful and on
+   failing decodes alike (strings and byte vectors are copied from bytes that are there: C06). For every schema
+   environment, every struct type with a finite type graph, every target and EVERY byte string it is at most
+   tneed(type) x the input length (tneed: the static constant of the type, <= 64 for the model's struct types) *)
+Theorem C05_alloc_linear : forall e n sid prior bs,
+  tfin n e (TStruct sid) = true -> (tneed n e (TStruct sid) <= 64)%nat ->
+  (alloc_of e sid prior bs <= tneed n e (TStruct sid) * length bs)%nat.
+Proof. exact AllocProofs.alloc_linear. Qed.
+(* the full statement - some constant for EVERY struct type - is FALSE for recursive types, of the repaired model and
+   of the repaired code (known finding decode/over-allocation/recursive-type): in struct Rec { int id; vector<Rec> kids }
+   every nesting level may announce as many kids as bytes are left; doubling the input (200 -> 400 bytes)
+   quadruples the allocation (2425 -> 9850 elements); the decode fails only at the innermost level *)
+Definition C05_alloc_linear_statement : Prop :=
+  forall e sid, exists c : nat, forall prior bs, (alloc_of e sid prior bs <= c * length bs + c)%nat.
+Theorem C05_alloc_recursive_refuted_witness :
+  N.of_nat (length (rec_attack 25 193)) = 200 /\ N.of_nat (alloc_of rec_env 0 (VInt 0) (rec_attack 25 193)) = 2425 /\
+  N.of_nat (length (rec_attack 50 393)) = 400 /\ N.of_nat (alloc_of rec_env 0 (VInt 0) (rec_attack 50 393)) = 9850 /\
+  decode rec_env 0 (rec_attack 50 393) = DErr.
+Proof. exact AllocProofs.alloc_recursive_quadratic. Qed.
+
 (* what the pinned code did on the witnesses of the recorded findings (Codec/Pinned.v: C05_total_pinned_refuted -
    LIST count -1 panicked in make, 2^30 reached make) and what the repaired code does *)
 Theorem C05_hostile_count_witness :
@@ -60,6 +81,9 @@ Theorem C05_code_schemas_no_panic : forall sid prior bs, ok_out (decode_into env
 Proof. exact RoundTripExamples.env0_no_panic. Qed.
 Theorem C05_code_schemas_total : forall sid prior bs, fits_model sid = true -> total_out (decode_into env0 sid prior bs).
 Proof. exact RoundTripExamples.env0_total. Qed.
+Theorem C05_code_schemas_alloc_linear : forall sid prior bs, fits_model sid = true ->
+  (alloc_of env0 sid prior bs <= 64 * length bs)%nat.
+Proof. exact AllocProofs.env0_alloc_linear. Qed.
 Theorem C05_code_schemas_total_examples :
   forallb fits_model [sid_requestf_RequestPacket; sid_requestf_ResponsePacket; sid_verifidl_Containers;
                       sid_verifidl_Scalars; sid_endpointf_EndpointF; sid_authf_BasicAuthInfo; sid_authf_TokenKey;
@@ -80,12 +104,15 @@ Print Assumptions C05_no_panic.
 Print Assumptions C05_member_no_panic.
 Print Assumptions C05_total.
 Print Assumptions C05_total_any_type_partial.
+Print Assumptions C05_alloc_linear.
+Print Assumptions C05_alloc_recursive_refuted_witness.
 Print Assumptions C05_hostile_count_witness.
 Print Assumptions C05_fuel_sufficient.
 Print Assumptions C05_skip_fuel_sufficient.
 Print Assumptions C05_code_schemas_fuel.
 Print Assumptions C05_code_schemas_no_panic.
 Print Assumptions C05_code_schemas_total.
+Print Assumptions C05_code_schemas_alloc_linear.
 Print Assumptions C05_code_schemas_total_examples.
 Print Assumptions C05_scalar_layer_safe.
 Print Assumptions C05_skip_depth_limit.
